@@ -7,7 +7,7 @@ Helper lemmas of C06 — `range_exact`: the parser model tiles every node's rang
 its own production and the ranges of its children.
 
 Positions are abstracted to token indices (`Idx o toks`: the `k`-th token of `toks` has `lo = hi = o + k`;
-by `Lemmas/ParseNatural.lean` the parser commutes with every map of positions, so the index stream stands
+by `Lemmas/ParsePosMap.lean` the parser commutes with every map of positions, so the index stream stands
 for every positioned stream with the same tokens, whatever the gaps between them).
 
 `Tight t` (on the RAW tree, bracket nodes `PUNC_PL` kept): at every node `[lo, hi]` (first and last token
